@@ -1,6 +1,9 @@
 package strutil
 
-import "strings"
+import (
+	"strings"
+	"unicode/utf8"
+)
 
 // HasSubseq determines whether s has t as its subsequence. A string t is a
 // subsequence of a string s if and only if there is a possible sequence of
@@ -11,7 +14,10 @@ func HasSubseq(s, t string) bool {
 		if i == -1 {
 			return false
 		}
-		s = s[i+len(string(p)):]
+		// Use the width of what was actually found: for invalid UTF-8 in t, p
+		// is U+FFFD, which also matches (shorter) invalid bytes in s.
+		_, width := utf8.DecodeRuneInString(s[i:])
+		s = s[i+width:]
 	}
 	return true
 }
